@@ -17,7 +17,7 @@ from ..algebra import Universe, run_trace_leg, model_leg, law_event, flags
 
 LEVEL = 'model_checking'
 WANT = ['C04', 'LAW', 'DRIFT']
-PLACEMENTS = ['function', 'emulate', 'method', 'method_emulate', 'super', 'apply_super', 'method_unbound', 'super_unbound']
+PLACEMENTS = ['function', 'emulate', 'method', 'method_emulate', 'super', 'apply_super', 'method_unbound', 'super_unbound', 'emulate_sigattr']
 
 
 def rename(ps, m):
@@ -99,9 +99,9 @@ def prog_event(tid, o, i, fl, placement):
         inst = None
         eff_o = o
         skipexec = False
-        if base in ('function', 'emulate', 'auto', 'auto_global', 'auto_closure', 'auto_attr', 'auto_attr2', 'auto_deco_noop'):
+        if base in ('function', 'emulate', 'emulate_sigattr', 'auto', 'auto_global', 'auto_closure', 'auto_attr', 'auto_attr2', 'auto_deco_noop'):
             fn = g['w']
-            codes = {fn.__wrapped__.__code__} if base == 'emulate' else {fn.__code__}
+            codes = {fn.__wrapped__.__code__} if base in ('emulate', 'emulate_sigattr') else {fn.__code__}
             plain_target = fn
             if auto:
                 real_inner = g.get('inner_real', g['inner'])
@@ -116,6 +116,22 @@ def prog_event(tid, o, i, fl, placement):
         elif base == 'auto_param':
             fn, plain_target = g['w'], g['w']
             codes = {g['w0'].__code__}
+        elif base == 'auto_hint':
+            fn, plain_target = g['w'], g['w']
+            codes = {g['w'].func.__code__}
+            eff_o = progs.hint_effective(o)
+            fns.add(fn, 'f1'); fns.add(g['inner'], 'f2')
+            declared, agree = outcome_full(declared_thunk(fn, g['inner'], fl), fns), 'ps'
+        elif base == 'auto_hint_partial':
+            fn, plain_target = g['w'], g['w']
+            codes = {g['w0'].func.__code__}
+            eff_o = progs.hint_effective(o)
+            fns.add(g['w0'], 'f1'); fns.add(g['inner'], 'f2')
+            # the declaration equivalent to partial(w0, inner): forwards(w0, inner, ...) with the bound first parameter removed
+            from sigtools import signatures as _s, specifiers as _sp
+            declared = outcome_full(lambda: _s.mask(_sp.forwards(g['w0'], g['inner'], fl['n'], *fl['names'], use_varargs=fl['uva'], use_varkwargs=fl['uvk'],
+                                                                 hide_args=fl['ha'], hide_kwargs=fl['hk'], partial=fl['partial']), 1), fns)
+            agree = 'ps'
         elif base == 'auto_param_default':
             # the callee parameter keeps its default, which discovery must NOT take for a bound argument: the plain signature of the partial
             fn, plain_target = g['w'], g['w']
@@ -214,7 +230,7 @@ def run(check, tier, seed, scratch):
     check.cov['rule'] = ('(a) forwards = embed o mask on seeded (outer, inner, n, names, flags) cases over star-bearing outers x inners with disjoint '
                          'and with shared names, and the composite soundness contract on real forwards results; (b) %d seeded programs: outer from the '
                          '%d star-bearing signatures, inner from the 220-signature universe over other names, written call (n<=2, <=2 names, use flags, '
-                         'partial), 8 placements (function, emulate, method, method+emulate, super, apply_forwards_to_super, unbound method/super), '
+                         'partial), 9 placements (function, emulate, emulate over a wrapper that already has __signature__, method, method+emulate, super, apply_forwards_to_super, unbound method/super), '
                          'each really called on every shape of the call set; distinct by (outer, inner, flags, placement)' % (nprog, len(UO)))
     check.assumptions += ['programs with hide_* flags are decided algebraically (C03_HideSound + embed), not by execution: the hidden arguments are unknown by definition',
                           'call shapes repeating a keyword the wrapper itself writes are excluded (no signature can express them), as in C03',
